@@ -239,9 +239,18 @@ outer:
 		case <-ctx.Done():
 			log.Warn("terminal did not respond to DA1 query")
 			break outer
+		case pos := <-vx.chCursorPos:
+			vx.explicitWidthProbed(pos)
 		case ev := <-vx.queue:
 			switch ev := ev.(type) {
 			case primaryDeviceAttribute:
+				// The cursor position report precedes this reply
+				// but select may have preferred the queue
+				select {
+				case pos := <-vx.chCursorPos:
+					vx.explicitWidthProbed(pos)
+				default:
+				}
 				break outer
 			case capabilitySixel:
 				log.Info("[capability] Sixel graphics")
@@ -334,6 +343,9 @@ outer:
 			}
 		}
 	}
+
+	// a cursor position report which never came is not expected anymore
+	atomicStore(&vx.reqCursorPos, false)
 
 	vx.enterAltScreen()
 	vx.enableModes()
@@ -1271,20 +1283,15 @@ func (vx *Vaxis) sendQueries() {
 	// Can the terminal report its own size?
 	_, _ = vx.tw.WriteString(textAreaSize)
 
-	// Explicit width query
+	// Explicit width query: the probe, then a cursor position request. We
+	// can't wait for the report here: nobody reads the event queue until we
+	// return, and the input loop can't get to the report once the replies
+	// ahead of it have filled the queue. New takes the report off
+	// chCursorPos along with the other replies
 	_, _ = vx.tw.WriteString("\x1b[H")
 	_, _ = fmt.Fprintf(vx.tw, explicitWidth, 1, " ")
-	// CursorPosition writes its query straight to the console: the probe
-	// has to be on the wire before it, or the reply reflects the cursor as
-	// it was before the probe
-	_, _ = vx.tw.Flush()
-	_, col := vx.CursorPosition()
-	if col == 1 {
-		log.Debug("[capability] explicit width supported")
-		vx.mu.Lock()
-		vx.caps.explicitWidth = true
-		vx.mu.Unlock()
-	}
+	atomicStore(&vx.reqCursorPos, true)
+	_, _ = vx.tw.WriteString(dsrcpr)
 
 	// Query some terminfo capabilities
 	// Just another way to see if we have RGB support
@@ -1307,6 +1314,18 @@ func (vx *Vaxis) sendQueries() {
 	// a response we'll return from init
 	_, _ = vx.tw.WriteString(primaryAttributes)
 	_, _ = vx.tw.Flush()
+}
+
+// explicitWidthProbed takes the cursor position reported after the explicit
+// width probe: the cursor was homed and one cell of explicit width 1 written,
+// the cursor has moved iff the terminal understood it
+func (vx *Vaxis) explicitWidthProbed(pos [2]int) {
+	if pos[1] == 2 {
+		log.Debug("[capability] explicit width supported")
+		vx.mu.Lock()
+		vx.caps.explicitWidth = true
+		vx.mu.Unlock()
+	}
 }
 
 // enableModes enables all the modes we want
